@@ -24,10 +24,10 @@ impl Property for C31Prop {
         }
     }
     fn shrink_budget_s(&self, tier: Tier) -> u64 {
-        // Per violation signature; the unchanged tree currently yields three.
+        // Per violation signature; the unchanged tree currently yields six.
         match tier {
-            Tier::Quick => 6,
-            Tier::Thorough => 25,
+            Tier::Quick => 4,
+            Tier::Thorough => 15,
         }
     }
     fn modes(&self) -> u32 {
